@@ -508,6 +508,41 @@ def reentrant_scope(run: lib.Run, scale: int = 1):
         yield f"RE#{i}", cfg, queries, batch
 
 
+def crowded_scope(run: lib.Run, scale: int = 1):
+    """random configurations in which ONE or TWO (resource, relation) pairs are crowded: 20 … 1100 further direct tuples from filler
+    subjects (a shared document with many viewers), while the queried subjects hold the same relation on OTHER resources and the
+    fillers hold other relations on the crowded one.  Queries go to the crowded pairs, directly and through the rewrite rules."""
+    r = random.Random(run.seed * 15485863 + 1212)
+    n = (60 if run.tier == "quick" else 600) * scale
+    for i in range(n):
+        cfg, queries, batch = rand_cfg(r)
+        if cfg["deadline"]["mode"] != "linear":
+            cfg.update(DEFAULT_LIMITS)
+            batch = None
+        cfg["max_nodes"] = max(cfg.get("max_nodes", 0), 10000)      # the fillers are not what a limit should cut off here
+        tuples = cfg["tuples"]
+        crowded = []
+        for _ in range(r.choice([1, 1, 2])):
+            obj, rel = r.choice(R_OBJS[:5]), r.choice(R_RELS)
+            crowded.append((obj, rel))
+            size = r.choice([20, 63, 64, 65, 66, 130, 300, 1100 if run.tier != "quick" else 200])
+            at = r.randrange(0, len(tuples) + 1)
+            tuples[at:at] = [[f"user:f{k}", rel, obj, None] for k in range(size)]
+            for u in R_USERS:
+                if r.random() < 0.7:
+                    other = r.choice([o for o in R_OBJS[:5] if o != obj])
+                    tuples.insert(r.randrange(0, len(tuples) + 1), [u, rel, other, r.choice([None, None] + R_CAVS)])
+            for k in range(3):
+                tuples.append([f"user:f{k}", r.choice([x for x in R_RELS if x != rel]), obj, None])
+        extra = [(u, rel, obj) for obj, rel in crowded for u in R_USERS + ["user:f0", "user:f19", "user:nobody"]]
+        extra += [(u, r.choice(R_RELS), obj) for obj, _ in crowded for u in R_USERS[:2]]
+        queries = extra + queries[:4]
+        if batch is not None:
+            batch = [q for q in extra[:6]] + batch[:3]
+            queries = queries + [t for t in batch if t not in queries]
+        yield f"crowded#{i}", cfg, queries, batch
+
+
 def random_scope(run: lib.Run, scale: int = 1, stream: int = 0):
     r = random.Random(run.seed * 104729 + 12 + 7907 * stream)
     n = (8000 if run.tier == "quick" else 120000) * scale
@@ -947,7 +982,7 @@ def check(run: lib.Run, audit: dict) -> int:
     tr_disagreements = [c for c in run.disagreements if c.get("part") == "translated source vs python"]
     run.disagreements = [c for c in run.disagreements if c.get("part") != "translated source vs python"]
     cov = LineCov()
-    run_cases(run, [small_scope(run), random_scope(run, scale=run.boost), reentrant_scope(run, scale=run.boost)], cov, cov_every=7)
+    run_cases(run, [small_scope(run), random_scope(run, scale=run.boost), reentrant_scope(run, scale=run.boost), crowded_scope(run, scale=run.boost)], cov, cov_every=7)
     run.extra["anchored_line_coverage"] = cov.report()
     run.extra["clock_reads"] = CLOCK.reads
     if not run.spec_failures:
